@@ -13,7 +13,7 @@ From HC Require FaultReplicaEx.
 From HC Require Import FaultReplica.
 From HC Require AnyProofCorEx.
 From HC Require Import AnyProofLib AnyProof AnyProofCorLib AnyProofCor.
-From HC Require SrcOrder OrderTie.
+From HC Require SrcOrder OrderTie OrderTieEvents.
 From HC Require Import SoundCoreLib SoundCore ReplicaCor.
 From HC Require Import Base NMap Codec Crypto FlatTree Storage Bitfield Oplog Merkle Core CoreFacts.
 From HC Require Import EventsAvail.
@@ -224,12 +224,9 @@ Proof. exact replica_history_avail. Qed.
 (* Tie to the source (tools/srcorder.py): in append_batch and verify_and_apply_proof the events are sent AFTER the checkpoint, the
    last storage operation of the call — so a call that fails at a storage operation has sent nothing. *)
 Theorem C13_source_events_after_last_storage_operation :
-  OrderTie.tied_order SrcOrder.src_order_append_batch OrderTie.model_order_append /\
-  OrderTie.tied_order SrcOrder.src_order_clear OrderTie.model_order_clear /\
-  OrderTie.tied_order SrcOrder.src_order_verify_and_apply_proof OrderTie.model_order_apply /\
-  OrderTie.tied_order SrcOrder.src_order_make_read_only OrderTie.model_order_read_only /\
-  OrderTie.tied_order SrcOrder.src_order_flush_bitfield_and_tree_and_oplog OrderTie.model_order_flush.
-Proof. exact OrderTie.source_order_is_the_models. Qed.
+  OrderTieEvents.tied_events SrcOrder.src_order_append_batch /\
+  OrderTieEvents.tied_events SrcOrder.src_order_verify_and_apply_proof.
+Proof. exact OrderTieEvents.source_sends_events_last. Qed.
 
 Theorem C13_apply_any_accepted :
   forall cr : crypto,
